@@ -65,6 +65,11 @@ Proof.
 Qed.
 Lemma nucleationRate_z Z beta T tau t : nucleationRate Z beta 0 T tau t = 0.
 Proof. unfold nucleationRate. destruct (Req_EM_T 0 0); [reflexivity|contradiction]. Qed.
+Lemma nucleationRate_ext_t0 Z beta G T tau : nucleationRate_ext Z beta G T tau 0 = 0.
+Proof.
+  unfold nucleationRate_ext, incubation_factor_ext. destruct (Req_EM_T G 0); [reflexivity|].
+  destruct (Req_EM_T 0 0); [ring|contradiction].
+Qed.
 Lemma nucleationRate_ss_nz Z beta G T : G <> 0 -> nucleationRate_ss Z beta G T = Z * beta * exp (- G / (kB * T)) * 1.
 Proof. intros H. unfold nucleationRate_ss. destruct (Req_EM_T G 0); [contradiction|reflexivity]. Qed.
 Lemma nucleationRate_ss_z Z beta T : nucleationRate_ss Z beta 0 T = 0.
@@ -86,6 +91,7 @@ Ltac unmask :=
   first [ rewrite beta2_nz by nz | rewrite beta2_z | idtac ];
   first [ rewrite incubationTime_nz by nz | rewrite incubationTime_z | idtac ];
   first [ rewrite nucleationRate_nz by (first [nz | num]) | rewrite nucleationRate_z | idtac ];
+  first [ rewrite nucleationRate_ext_t0 | idtac ];
   first [ rewrite nucleationRate_ss_nz by nz | rewrite nucleationRate_ss_z | idtac ];
   cbn [fst snd]; unfold NBP_Rcrit, NBP_Gcrit, nucleationRadius, kB, NA; rmax.
 
